@@ -2,13 +2,20 @@
 (* Property C13: df_slice keeps exactly the rows in the interval; stitching switches at bounds. *)
 (*                                                                                              *)
 (* Time is a grid of positive integers.  A timeseries is a frame                                 *)
-(*     [rows |-> strictly increasing sequence of timestamps, cols |-> sequence of columns]       *)
-(* (a pd.Series has one column); cells are integers, NaN (= -1) is the missing value.            *)
+(*     [rows |-> non-decreasing sequence of timestamps, cols |-> sequence of columns]            *)
+(* (a pd.Series has one column); cells are integers, NaN (= -1) is the missing value.  An index  *)
+(* may carry the same timestamp on several consecutive rows (two prints at one time); every row  *)
+(* is judged on its own, so rows with equal timestamps are all inside or all outside.  Stitching *)
+(* and unstitching speak of strictly increasing series (WellFormed).                             *)
 (* A bound is a grid position, 0 stands for None (unbounded).  The bracket pair is a sequence    *)
 (* of two characters, <<"(", "]">> etc.                                                          *)
-(* In mode "date" a bound is compared with the timestamp itself.  In mode "tod" (bounds given    *)
-(* as datetime.time) a timestamp is  day * B + time-of-day  with the time of day in 1..B-1, and  *)
-(* a bound is compared with the row's time of day.                                               *)
+(* In mode "date" a bound is compared with the timestamp itself (an instant).  In mode "tod"     *)
+(* (bounds given as datetime.time, naive index) a timestamp is  day * B + time-of-day  with the  *)
+(* time of day in 1..B-1, and a bound is compared with the row's time of day.  In mode "ltod"    *)
+(* (datetime.time bounds, index in a time zone) a timestamp is the instant  day * B + e  where   *)
+(* e - 1 is the time ELAPSED since the local midnight of the row's civil day, and the frame has  *)
+(* a third field  tod  with each row's LOCAL wall-clock time of day: that is what a time-of-day  *)
+(* bound is compared with.  On the day the clocks change it is not a function of e (LocalTod).   *)
 EXTENDS Integers, Sequences, FiniteSets, SequencesExt
 
 NaN == -1
@@ -20,6 +27,10 @@ Rev(s)   == [i \in 1..Len(s) |-> s[Len(s) + 1 - i]]
 MinI(a, b) == IF a < b THEN a ELSE b
 WellFormed(f) == /\ \A j \in 1..NCols(f) : Len(f.cols[j]) = NRows(f)
                  /\ \A i \in 1..(NRows(f) - 1) : f.rows[i] < f.rows[i + 1]
+\* sorted, repeated timestamps allowed (the domain of a single slice)
+SortedFrame(f) == /\ \A j \in 1..NCols(f) : Len(f.cols[j]) = NRows(f)
+                  /\ \A i \in 1..(NRows(f) - 1) : f.rows[i] <= f.rows[i + 1]
+HasDupRows(f)  == \E i \in 1..(NRows(f) - 1) : f.rows[i] = f.rows[i + 1]
 
 KeepRows(f, Keep(_)) ==
     LET ix == SelectSeq(Idx(NRows(f)), Keep) IN
@@ -30,23 +41,44 @@ KeepRows(f, Keep(_)) ==
 \* one slice
 \* ---------------------------------------------------------------------------------------------
 Closed(ch) == ch \in {"[", "]"}
+TodMode(mode) == mode \in {"tod", "ltod"}
 Key(t, mode, B) == IF mode = "tod" THEN t % B ELSE t
+\* what row i is compared with: the instant, the time of day of a naive timestamp, or the row's own
+\* local wall-clock time of day (never derived from the instant)
+KeyAt(s, i, mode, B) == IF mode = "ltod" THEN s.tod[i] ELSE Key(s.rows[i], mode, B)
 LowerOK(k, lb, closed) == lb = 0 \/ (IF closed THEN lb <= k ELSE lb < k)
 UpperOK(k, ub, closed) == ub = 0 \/ (IF closed THEN k <= ub ELSE k < ub)
 \* a window of times of day whose start is later than its end wraps past midnight
-Wraps(lb, ub, mode) == mode = "tod" /\ lb # 0 /\ ub # 0 /\ lb > ub
-InSlice(t, lb, ub, oc, mode, B) ==
-    LET k  == Key(t, mode, B)
-        lo == LowerOK(k, lb, Closed(oc[1]))
+Wraps(lb, ub, mode) == TodMode(mode) /\ lb # 0 /\ ub # 0 /\ lb > ub
+InSliceK(k, lb, ub, oc, mode) ==
+    LET lo == LowerOK(k, lb, Closed(oc[1]))
         hi == UpperOK(k, ub, Closed(oc[2]))
     IN  IF Wraps(lb, ub, mode) THEN lo \/ hi ELSE lo /\ hi
+InSlice(t, lb, ub, oc, mode, B) == InSliceK(Key(t, mode, B), lb, ub, oc, mode)
 \* exactly the rows in the interval, rows and values otherwise untouched
-Slice(s, lb, ub, oc, mode, B) == KeepRows(s, LAMBDA i : InSlice(s.rows[i], lb, ub, oc, mode, B))
+Slice(s, lb, ub, oc, mode, B) == KeepRows(s, LAMBDA i : InSliceK(KeyAt(s, i, mode, B), lb, ub, oc, mode))
+
+\* A civil day of a time zone, z = [kind, G, H]: kind "n" = an ordinary day; "s" = the clocks go forward
+\* by H slots at the moment G - 1 slots have elapsed since midnight (the local times G .. G+H-1 do not
+\* exist); "f" = they go back by H slots (the local times G-H .. G-1 happen twice).  The wall-clock
+\* time of day of the row at elapsed slot e:
+LocalTod(z, e) == IF z.kind = "n" \/ e < z.G THEN e ELSE IF z.kind = "s" THEN e + z.H ELSE e - z.H
 
 \* mechanism of today's wrap-around branch (df_slice calls itself for the two halves without
 \* handing the brackets on, so both halves use the default "(]"); compared with the law in TLC
 WrapAsCoded(s, lb, ub, oc, mode, B) ==
     KeepRows(s, LAMBDA i : LET k == Key(s.rows[i], mode, B) IN UpperOK(k, ub, TRUE) \/ LowerOK(k, lb, FALSE))
+
+\* mechanism models of plausible re-implementations, compared with the law in TLC so that the generated
+\* universes are known to contain the cases that tell them apart:
+\* (a) the time of day taken as the time elapsed since the row's midnight
+SliceElapsed(s, lb, ub, oc, B) == KeepRows(s, LAMBDA i : InSliceK(s.rows[i] % B, lb, ub, oc, "ltod"))
+\* (b) a closed-closed cut from which ONE row is taken off again at an open bound
+SliceTrimOne(s, lb, ub, oc) ==
+    LET ix  == SelectSeq(Idx(NRows(s)), LAMBDA i : LowerOK(s.rows[i], lb, TRUE) /\ UpperOK(s.rows[i], ub, TRUE))
+        ix1 == IF ~Closed(oc[1]) /\ lb # 0 /\ ix # <<>> /\ s.rows[ix[1]] = lb THEN Tail(ix) ELSE ix
+        ix2 == IF ~Closed(oc[2]) /\ ub # 0 /\ ix1 # <<>> /\ s.rows[ix1[Len(ix1)]] = ub THEN SubSeq(ix1, 1, Len(ix1) - 1) ELSE ix1
+    IN  KeepRows(s, LAMBDA i : i \in RangeOf(ix2))
 
 \* ---------------------------------------------------------------------------------------------
 \* stitching: series i supplies the timestamps in (ub[i-1], ub[i]]; with n columns, column j
@@ -76,6 +108,18 @@ StitchInc(ss, ubs, n) ==
     IN  ConcatFrames([i \in 1..nS |-> Piece(i)], n)
 \* decreasing bound lists are reversed together with the series
 Stitch(ss, ubs, n) == IF Increasing(ubs) THEN StitchInc(ss, ubs, n) ELSE StitchInc(Rev(ss), Rev(ubs), n)
+
+\* Stitching (one column) series that carry repeated timestamps.  The statement pins where the data of a
+\* timestamp comes from ("every timestamp in (ub[i-1], ub[i]] takes its data from series i"), not how many of
+\* its rows are shown ("covering each timestamp at most once").  Named deviation DupMultiplicityFree: a result
+\* is accepted when it is sorted, every row of it is one of the rows that the owner of its timestamp has
+\* at that timestamp, and every timestamp the owner has in its interval is shown.
+ValsAt(s, t) == {s.cols[1][r] : r \in {q \in 1..NRows(s) : s.rows[q] = t}}
+StitchDupOK(ss, ubs, out) ==
+    /\ SortedFrame(out) /\ NCols(out) = 1
+    /\ \A r \in 1..NRows(out) : \E i \in 1..Len(ubs) :
+          InInterval(out.rows[r], ubs, i) /\ out.cols[1][r] \in ValsAt(ss[i], out.rows[r])
+    /\ \A i \in 1..Len(ss) : \A r \in 1..NRows(ss[i]) : InInterval(ss[i].rows[r], ubs, i) => HasT(out, ss[i].rows[r])
 
 \* df_unslice: any family of series, one per bound, whose stitching reproduces the frame
 IsUnstitch(U, F, ubs, n) == Len(U) = Len(ubs) /\ (\A i \in 1..Len(U) : NCols(U[i]) = 1 /\ WellFormed(U[i]))
